@@ -203,8 +203,10 @@ def make_model(c):
     # neither this suite's subject nor within C14's hypothesis (bounded prior support)
     box.update({name: (-1048576.0, 1048576.0) for name, kind, dom in c.params if kind in ('real', 'int')})
     ints = [name for name, kind, dom in c.params if kind in ('int', 'intbox')]
-    return I.LoggedModel([p[0] for p in c.params], kind=c.model_kind, blobs=c.blobs, box=box, ints=ints,
+    m = I.LoggedModel([p[0] for p in c.params], kind=c.model_kind, blobs=c.blobs, box=box, ints=ints,
                          reuse_blob=(c.seed % 3 == 0), int_outputs={1: True, 3: 'float32'}.get(c.seed % 6, False))
+    m.blob_order = (c.seed % 5 == 2)
+    return m
 
 
 def start_positions(c):
